@@ -33,6 +33,8 @@ def gen_cases(rng, tier):
     cases += [C03.gen_real_case(rng) for _ in range(n_real)]
     cases += [{'kind': 'rr2', 'z': [rng.choice(ZS), rng.choice(ZS)], 'K': [rng.choice(KS), rng.choice(KS)]} for _ in range(n_k)]
     cases += [gen_xpkg_case(rng) for _ in range(16 if tier == 'quick' else 120)]
+    nh = (24, 16) if tier == 'quick' else (300, 100)
+    cases += [C03.gen_vleh_case(rng, 'stub') for _ in range(nh[0])] + [C03.gen_vleh_case(rng, 'real') for _ in range(nh[1])]
     cases += [gen_iter_case(rng, 2) for _ in range(n_k)]
     cases += [gen_iter_case(rng, rng.choice([1, 3, 4])) for _ in range(n_k)]
     return cases
@@ -214,6 +216,8 @@ def run_impl(case):
         return run_iter(case)
     if case['kind'] == 'xpkg':
         return run_xpkg(case)
+    if case['kind'] == 'vleh':
+        return C03.run_vleh(case)
     return C03.run_vle(case)
 
 def coq_case(case, out):
@@ -227,6 +231,7 @@ def coq_case(case, out):
     old = C03.CHECK_FN
     C03.CHECK_FN = 'vle_check'
     try:
+        if case['kind'] == 'vleh': return C03.coq_vleh(case, out)
         return C03.coq_vle(case, out)
     finally:
         C03.CHECK_FN = old
@@ -235,12 +240,14 @@ def coq_show(case, out):
     return C03.coq_show(case, out) if case['kind'] == 'vle' else 'tt'
 
 def nontrivial(case, out):
+    if case['kind'] == 'vleh': return C03.nontrivial(case, out)
     if case['kind'] == 'xpkg': return len({o['bubble'][0] for o in out['steps']}) >= 2
     if case['kind'] == 'rr2': return out['V'] is not None
     if case['kind'] in ('it2', 'itn'): return out['w'] is not None and not ill_conditioned(out)
     return C03.nontrivial(case, out) or (out['init']['T'], out['init']['P']) != (out['final']['T'], out['final']['P'])
 
 def classify(case, out):
+    if case['kind'] == 'vleh': return C03.classify(case, out)
     if case['kind'] == 'xpkg': return ['xpkg:' + ''.join(s_['pkg'] for s_ in case['steps'])]
     if case['kind'] == 'rr2': return ['rr2:' + ('value' if out['V'] is not None else 'zero-denominator')]
     if case['kind'] in ('it2', 'itn'):
@@ -277,11 +284,62 @@ def raoult_rr(z, K):
         else: hi = mid
     return 0.5 * (lo + hi)
 
+def oracle_vleh(case):
+    """A history of calls on one stream (real code, real solvers).  After every call: specified T / P stored; the result equals
+    the result of the same call on a FRESH stream holding the same material (a flash depends on the material, T, P and the
+    specification, not on what the object solved before); for T,P with volatile chemicals only: single phase only at / beyond
+    the independently computed bubble / dew pressure."""
+    e = C03.env(); tmo = e['tmo']
+    s = C03.build_stream(case)
+    for k, op in enumerate(case['ops']):
+        if C03.apply_outside_op(case, s, op): continue
+        sk = op[1]
+        c1 = dict(case, sk=sk, spec=op[2])
+        spec = C03.resolve_spec(c1, s)
+        if case['mode'] == 'stub' and sk[1] in 'HS':
+            spec = C03.resolve_spec(dict(c1, spec=dict(op[2], **{sk[1]: ['frac', 0.5]})), s)
+        if 'V' in spec and not 0. <= spec['V'] <= 1.: continue
+        kw = {kk: (np.array(v) if isinstance(v, list) else v) for kk, v in spec.items()}
+        pre = {ph: C03.fl(r.to_array()) for ph, r in tuple(s.imol)}
+        fresh = tmo.MultiStream(None, T=s.T, P=s.P, phases=case['phases'], thermo=e['thermo'])
+        for ph, r in pre.items(): fresh.imol[ph] = np.array(r)
+        try:
+            s.vle(**kw)
+        except Exception:
+            continue
+        if 'T' in spec and s.T != spec['T']: return f'vle({sk}) call {k} of a history: specified T={spec["T"]} but the stream has T={s.T}'
+        if 'P' in spec and s.P != spec['P']: return f'vle({sk}) call {k} of a history: specified P={spec["P"]} but the stream has P={s.P}'
+        try:
+            fresh.vle(**kw)
+        except Exception:
+            fresh = None
+        if fresh is not None:
+            a, b = _rows(s), _rows(fresh)
+            F = max(1., float(np.abs(b).sum()))
+            if np.abs(a - b).max() > 1e-4 * F or abs(s.T - fresh.T) > 1e-4 * fresh.T or abs(s.P - fresh.P) > 1e-4 * fresh.P:
+                return (f'vle({sk}) call {k} of a history on one stream differs from the same call on a fresh stream with the same material: '
+                        f'g={a[0].round(6).tolist()} l={a[1].round(6).tolist()} T={s.T} P={s.P} vs g={b[0].round(6).tolist()} l={b[1].round(6).tolist()} T={fresh.T} P={fresh.P}')
+        volatile_only = not any(pre[ph][i] for ph in pre for i in range(3, 7))
+        present = [i for i in range(3) if sum(pre[ph][i] for ph in 'lg') > 0]
+        if sk == 'TP' and volatile_only and len(present) >= 2:
+            ref = tmo.Stream(None, T=spec['T'], P=spec['P'], thermo=e['thermo'])
+            for i in present: ref.imol[C03.IDS[i]] = sum(pre[ph][i] for ph in 'lg')
+            try:
+                Pb = ref.bubble_point_at_T(spec['T']).P; Pd = ref.dew_point_at_T(spec['T']).P
+            except Exception:
+                continue
+            g = float(np.sum(C03.fl(s.imol['g'].to_array()))); l = float(np.sum(C03.fl(s.imol['l'].to_array())))
+            if Pd * (1 + 1e-4) < spec['P'] < Pb * (1 - 1e-4) and (g == 0. or l == 0.):
+                return (f'vle(TP) call {k} of a history: P_dew={Pd:.0f} < P={spec["P"]:.0f} < P_bubble={Pb:.0f} but the result is single phase '
+                        f'(V={g / (g + l):.3f})')
+    return None
+
 def oracle(case):
     """The property on the REAL code with the REAL solvers: specified T/P are the stream's T/P after the call;
     a specified H is reproduced; a specified V is met; multiplying the feed (and H, S) by a constant multiplies the
     products by it; with the ideal package the T,P split equals an independent Raoult's-law Rachford-Rice solution."""
     if case['kind'] == 'xpkg': return oracle_xpkg(case)
+    if case['kind'] == 'vleh': return oracle_vleh(case)
     if case['kind'] != 'vle': return None
     s = C03.build_stream(case)
     spec = C03.resolve_spec(case, s)
